@@ -107,3 +107,77 @@ def misaligned(text_or_bytes, codec):
         i = data.find(u, i + 1)
     # a CR unit straddling is irrelevant: CRLF ends with LF
     return False
+
+
+# ----------------------------------------------------------- boundary sizes
+# Sizes at which implementations typically change behaviour: powers of two
+# used as buffer / block sizes (+-1), the reader's 96-byte read-ahead block,
+# and decimal digit boundaries. Used by the "scale" pass of every check that
+# has a scalable input; enumerated exhaustively, one dimension at a time.
+BUFFER_SIZES = [1024, 4096, 8192, 65536]
+BOUNDARY_SIZES = sorted(set(
+    [b + d for b in BUFFER_SIZES for d in (-1, 0, 1)] +
+    [95, 96, 97, 191, 192, 193, 999, 1000, 1001, 9999, 10000, 10001,
+     131073]))
+BOUNDARY_SIZES_Q = [1023, 1024, 1025, 4095, 4096, 4097, 8191, 8192, 8193,
+                    65535, 65536, 65537]
+
+
+def sized_text(n, shape='lines', nl='\n', tag='t'):
+    """ASCII text of exactly n characters (n >= len(nl)+1) ending in nl.
+    shape 'lines': ~40-character numbered lines; 'one': a single line."""
+    if shape == 'one':
+        return ('%s-' % tag).ljust(n - len(nl), 'x')[:n - len(nl)] + nl
+    out = []
+    total = 0
+    i = 0
+    while True:
+        line = ('%s%05d ' % (tag, i)).ljust(40 - len(nl), '.') + nl
+        if total + len(line) > n - (len(nl) + 1):
+            rest = n - total
+            out.append('z' * (rest - len(nl)) + nl)
+            break
+        out.append(line)
+        total += len(line)
+        i += 1
+    s = ''.join(out)
+    assert len(s) == n, (len(s), n)
+    return s
+
+
+def straddle_text(n, codec='utf-8', nl='\n', ch=None):
+    """Text whose encoding in `codec` (without BOM) is about n bytes and has
+    a multi-byte character starting one byte before every buffer-size
+    boundary below n (so a block-wise decoder that cuts at byte offsets
+    splits it). Returns the text."""
+    from mc.spec import enc_nobom
+    if ch is None:
+        ch = '\U0001f600' if codec.lower().replace('_', '-').startswith(
+            'utf-16') else 'é'
+    out = []
+    size = 0
+    half = len(enc_nobom(ch, codec)) // 2
+    targets = [b - half for b in BUFFER_SIZES if b - half < n]
+    i = 0
+    w = len(enc_nobom('a', codec))
+    cw = len(enc_nobom(ch, codec))
+    nlw = len(enc_nobom(nl, codec))
+    while size < n:
+        nxt = next((t for t in targets if t >= size), None)
+        line = '+s%05d ' % i
+        body = line.ljust(30, 'y')
+        if nxt is not None and nxt - size < (len(body) + 2) * w + nlw:
+            # place ch so that it begins exactly at byte offset nxt
+            pad = nxt - size
+            if pad % w == 0 and pad // w >= 1:
+                k = pad // w
+                body = ('+' + 'p' * max(0, k - 1))[:k] + ch + 'q'
+                targets.remove(nxt)
+            elif pad % w:
+                # unreachable alignment for this code unit width: shift by
+                # emitting a short filler first
+                body = '+f'
+        out.append(body + nl)
+        size += len(enc_nobom(body + nl, codec))
+        i += 1
+    return ''.join(out)
